@@ -276,7 +276,8 @@ let run_case oc (c : case) =
 let dfs_case oc (c : case) (limit : int) =
   let count = ref 0 in
   let n = c.nthreads in
-  let rec go (cfg : cfg) (sched_rev : int list) (parked : (int * shared) list) =
+  (* rstart: shared state at the F load that started the current round of the waiting loop of a thread *)
+  let rec go (cfg : cfg) (sched_rev : int list) (parked : (int * shared) list) (rstart : (int * shared) list) =
     if !count >= limit then ()
     else if all_done c cfg then begin
       incr count;
@@ -290,13 +291,21 @@ let dfs_case oc (c : case) (limit : int) =
           if not is_parked then begin
             any := true;
             let cfg' = step c.env cfg tids.(t) in
-            (* fruitless round: thread was at PLdY, is back at PChkF, shared state untouched *)
+            let others l = List.filter (fun (u, _) -> u <> t) l in
+            let rstart' =
+              match (cfg.c_pool tids.(t)).t_pc with
+              | PChkF (_, _) -> (t, cfg.c_sh) :: others rstart
+              | _ -> rstart
+            in
+            (* fruitless round: the thread was at PLdY, is back at PChkF, and the shared state has not
+               changed since the F load that started the round: it would read the same values again *)
             let parked' =
               match (cfg.c_pool tids.(t)).t_pc, (cfg'.c_pool tids.(t)).t_pc with
-              | PLdY (_, _), PChkF (_, _) -> (t, cfg'.c_sh) :: List.filter (fun (u, _) -> u <> t) parked
+              | PLdY (_, _), PChkF (_, _) when List.exists (fun (u, sh) -> u = t && sh = cfg'.c_sh) rstart ->
+                  (t, cfg'.c_sh) :: others parked
               | _ -> if cfg'.c_sh = cfg.c_sh then parked else []
             in
-            go cfg' (t :: sched_rev) parked'
+            go cfg' (t :: sched_rev) parked' rstart'
           end
         end
       done;
@@ -308,7 +317,7 @@ let dfs_case oc (c : case) (limit : int) =
       end
     end
   in
-  go (init (progs_fun c)) [] [];
+  go (init (progs_fun c)) [] [] [];
   !count
 
 (* ---------- reading traces back ---------- *)
@@ -361,7 +370,7 @@ let chk_traces (cases : case list) (traces : trace list) (props : int list) =
   List.iter (fun tr ->
       (* a trace id may carry a #k suffix (enumerated schedules of one case) *)
       let base = match String.index_opt tr.tid_ '#' with Some i -> String.sub tr.tid_ 0 i | None -> tr.tid_ in
-      match Hashtbl.find_opt tbl base with
+      match (match Hashtbl.find_opt tbl tr.tid_ with Some c -> Some c | None -> Hashtbl.find_opt tbl base) with
       | None -> Printf.printf "chk %s - nocase\n" tr.tid_
       | Some c ->
           List.iter (fun f -> Printf.printf "flag %s %s\n" tr.tid_ f) tr.flags;
